@@ -305,6 +305,13 @@ def run_lines(binary, lines, timeout=1800, env=None, args=(), prefix=None):
         p = subprocess.run([binary] + list(args), input=inp, stdout=subprocess.PIPE, stderr=subprocess.PIPE,
                            timeout=timeout, text=True, errors="replace", env=env)
     except subprocess.TimeoutExpired:
+        try:
+            os.makedirs(os.path.join(BUILD, "crash"), exist_ok=True)
+            tag = hashlib.sha1(inp.encode()).hexdigest()[:10]
+            with open(os.path.join(BUILD, "crash", "%s-%s.timeout.stdin" % (os.path.basename(binary), tag)), "w") as f:
+                f.write(inp)
+        except OSError:
+            pass
         return None, "timeout"
     out = p.stdout.split("\n")
     if out and out[-1] == "":
@@ -329,7 +336,8 @@ def run_lines_parallel(binary, lines, args=(), prefix=None, workers=12, timeout=
     """run_lines over several processes (the whole-server harness is single-threaded per scenario)."""
     from concurrent.futures import ThreadPoolExecutor
     n = max(1, min(workers, len(lines) // 32))
-    size = (len(lines) + n - 1) // n
+    # short-lived processes: a process that gets stuck (see below) then costs one short timeout, not a long one
+    size = min(64, (len(lines) + n - 1) // n)
     chunks = [lines[i:i + size] for i in range(0, len(lines), size)]
     def one(c):
         # the whole-server harness runs under testing/synctest; the go1.25.0 runtime occasionally spins or aborts
@@ -337,7 +345,7 @@ def run_lines_parallel(binary, lines, args=(), prefix=None, workers=12, timeout=
         # retried, the result of a scenario does not depend on the process it runs in
         r = (None, "not run")
         for attempt in range(3):
-            r = run_lines(binary, c, timeout=240 + 2 * len(c), args=args, prefix=prefix)
+            r = run_lines(binary, c, timeout=(60 if attempt == 0 else 240) + 2 * len(c), args=args, prefix=prefix)
             if not r[1]:
                 return r
         return r
